@@ -7,7 +7,7 @@ pub(crate) fn union_without_unsafe(meta: &Meta) -> syn::Error {
 
     match s.len() {
         4 => s.push_str("(unsafe)"),
-        6 => s.insert_str(10, "unsafe"),
+        6 => s.insert_str(5, "unsafe"),
         _ => unreachable!(),
     }
 
